@@ -14,6 +14,7 @@ CONSTANTS
   BitSplits <- BitSplitsNone
   PS = {32}
   VCs = {"pat"}
+  Stride = 1
   Dev = {"NoTailPad"}
   Mode = "mc"
 INIT Init
